@@ -87,6 +87,20 @@ func Centroid(g geom.Geom) (geom.Point, error) {
 	var A, xA, yA float64
 	switch g.(type) {
 	case geom.Polygon:
+		// The sums below cancel when the polygon lies far from the origin
+		// relative to its size. They are formed in coordinates relative to the
+		// first vertex, which is added back to the result.
+		if ox, oy := centroidOrigin(g.(geom.Polygon)); ox != 0 || oy != 0 {
+			q := make(geom.Polygon, len(g.(geom.Polygon)))
+			for i, r := range g.(geom.Polygon) {
+				q[i] = make(geom.Path, len(r))
+				for j, v := range r {
+					q[i][j] = geom.Point{X: v.X - ox, Y: v.Y - oy}
+				}
+			}
+			c, err := Centroid(q)
+			return geom.Point{X: c.X + ox, Y: c.Y + oy}, err
+		}
 		// The sums below are cubic in the coordinates. When the cubes would
 		// leave the floating point range, the centroid of a copy scaled by a
 		// power of two per axis (which is exact) is calculated and scaled back.
@@ -137,6 +151,25 @@ func Centroid(g geom.Geom) (geom.Point, error) {
 		return geom.Point{}, newUnsupportedGeometryError(g)
 	}
 	return out, nil
+}
+
+// centroidOrigin returns the first vertex of the first ring of p, the local
+// origin of the centroid sums, or 0 for an axis on which there is no such
+// vertex or on which it is not finite.
+func centroidOrigin(p geom.Polygon) (ox, oy float64) {
+	if len(p) == 0 || len(p[0]) == 0 {
+		return 0, 0
+	}
+	o := p[0][0]
+	return centroidAxisOrigin(o.X), centroidAxisOrigin(o.Y)
+}
+
+// centroidAxisOrigin returns v when it is finite, otherwise 0.
+func centroidAxisOrigin(v float64) float64 {
+	if math.IsInf(v, 0) || math.IsNaN(v) {
+		return 0
+	}
+	return v
 }
 
 // Function PointOnSurface returns a point
